@@ -168,8 +168,9 @@ theorem adv_coreEnter (hne : s.rt ≠ .exited) (hw : s.core = .waitingFlag) (hs 
 /-! ### root tasks -/
 
 theorem mu_root_lt (r : Root) (x : TS) (creq' : Task → Bool) (rf : Bool) (tf : Option Nat) (k : Bool) (sr : Nat → Bool)
-    (h : rootPot x < rootPot (s.st (.root r))) :
-    mu cfg { s with st := upd s.st (.root r) x, creq := creq', rootFailed := rf, tFail := tf, killed := k, stopReq := sr }
+    (fw : Option Task) (osa : Option Nat) (h : rootPot x < rootPot (s.st (.root r))) :
+    mu cfg { s with st := upd s.st (.root r) x, creq := creq', rootFailed := rf, tFail := tf, killed := k, stopReq := sr,
+                    failWho := fw, orchStopAt := osa }
       < mu cfg s := by
   have := mRoots_upd_lt s.st r x h
   have h2 := mSubs_upd_root s.nSubs s.st s.kind s.withdrawn r x
@@ -179,7 +180,8 @@ theorem adv_enter (hne : s.rt ≠ .exited) (r : Root) (hw : s.st (.root r) = .wa
     (hc : s.creq (.root r) = false) : Advance cfg s := by
   apply Advance.mk (.enter r) { s with st := upd s.st (.root r) .running } rfl (by intro n h; cases h)
   · simp [step, hne, hw, hs, hc]
-  · exact mu_root_lt r .running s.creq s.rootFailed s.tFail s.killed s.stopReq (by rw [hw]; simp [rootPot])
+  · exact mu_root_lt r .running s.creq s.rootFailed s.tFail s.killed s.stopReq s.failWho s.orchStopAt
+      (by rw [hw]; simp [rootPot])
 
 /-- ending a root task: any enabled `rootEnd` decreases the measure -/
 theorem adv_rootEnd (r : Root) (how : TS) (s' : State) (hi : internal s (.rootEnd r how) = true)
@@ -213,10 +215,13 @@ theorem adv_rootStopping_observer (hne : s.rt ≠ .exited) (r : Root) (hk : r.ki
   apply Advance.mk (.rootStopping r (s.werr (.root r)))
     { s with st := upd s.st (.root r) (.stopping (s.werr (.root r)) (some (s.now + cfg.E))),
              creq := upd s.creq (.root r) false,
-             tFail := if s.werr (.root r) then markFail s else s.tFail } (by simp [internal]) (by intro n h; cases h)
+             tFail := if s.werr (.root r) then markFail s else s.tFail,
+             failWho := if s.werr (.root r) then markWho s (.root r) else s.failWho }
+    (by simp [internal]) (by intro n h; cases h)
   · cases hw : s.werr (.root r) <;> simp [step, hne, hst, hk, hc, hw]
   · have := mu_root_lt (cfg := cfg) r (.stopping (s.werr (.root r)) (some (s.now + cfg.E))) (upd s.creq (.root r) false)
-      s.rootFailed (if s.werr (.root r) then markFail s else s.tFail) s.killed s.stopReq (by rw [hst]; simp [rootPot])
+      s.rootFailed (if s.werr (.root r) then markFail s else s.tFail) s.killed s.stopReq
+      (if s.werr (.root r) then markWho s (.root r) else s.failWho) s.orchStopAt (by rw [hst]; simp [rootPot])
     exact this
 
 theorem adv_rootStopping_killer (hne : s.rt ≠ .exited) (hst : s.st (.root .daemonKiller) = .running)
@@ -227,17 +232,17 @@ theorem adv_rootStopping_killer (hne : s.rt ≠ .exited) (hst : s.st (.root .dae
     (by simp [internal]) (by intro n h; cases h)
   · simp [step, hne, hst, Root.kind, hc]
   · exact mu_root_lt .daemonKiller (.stopping false (some (s.now + cfg.D))) (upd s.creq (.root .daemonKiller) false)
-      s.rootFailed s.tFail true (stopReqNow s) (by rw [hst]; simp [rootPot])
+      s.rootFailed s.tFail true (stopReqNow s) s.failWho s.orchStopAt (by rw [hst]; simp [rootPot])
 
 theorem adv_rootStopping_orch (hne : s.rt ≠ .exited) (hst : s.st (.root .orchestrator) = .running)
     (hc : s.creq (.root .orchestrator) = true) : Advance cfg s := by
   apply Advance.mk (.rootStopping .orchestrator s.orchErr)
     { s with st := upd s.st (.root .orchestrator) (.stopping s.orchErr none),
-             creq := upd (cancelSubs s) (.root .orchestrator) false }
+             creq := upd (cancelSubs s) (.root .orchestrator) false, orchStopAt := some s.now }
     (by cases h : s.orchErr <;> simp [internal, h]) (by intro n h; cases h)
   · simp [step, hne, hst, Root.kind, hc]
   · exact mu_root_lt .orchestrator (.stopping s.orchErr none) (upd (cancelSubs s) (.root .orchestrator) false)
-      s.rootFailed s.tFail s.killed s.stopReq (by rw [hst]; simp [rootPot])
+      s.rootFailed s.tFail s.killed s.stopReq s.failWho (some s.now) (by rw [hst]; simp [rootPot])
 
 /-! ### ensemble tasks -/
 
@@ -257,7 +262,8 @@ theorem adv_subStopping (hne : s.rt ≠ .exited) (i : Nat) (hi : i < s.nSubs) (h
   apply Advance.mk (.subStopping i (s.werr (.sub i)))
     { s with st := upd s.st (.sub i) (.stopping (s.werr (.sub i)) (some (s.now + grace cfg s (.sub i)))),
              creq := upd s.creq (.sub i) false,
-             tFail := if s.werr (.sub i) = true ∧ cfg.fixed = true then markFail s else s.tFail }
+             tFail := if s.werr (.sub i) = true ∧ cfg.fixed = true then markFail s else s.tFail,
+             failWho := if s.werr (.sub i) = true ∧ cfg.fixed = true then markWho s (.sub i) else s.failWho }
     (by simp [internal]) (by intro n h; cases h)
   · cases hw : s.werr (.sub i) <;> simp [step, hne, hi, hst, hc, hw]
   · have := mSubs_upd_lt s.nSubs i hi s.st s.kind s.withdrawn
